@@ -64,7 +64,7 @@ fn k2_parse(class: u8) {
         _ => 2,
     };
     vk::assume(cls == class);
-    let r = parse(p);
+    let r = noerr(parse(p));
     vk_cover!(r.is_ok() && n > 70000, "cover: a payload longer than 70000 bytes is accepted");
     let tail_ptr = unsafe { p.as_ptr().add(1) };
     let text = |q: &[u8]| q.as_ptr() == tail_ptr && q.len() == n - 1;
@@ -132,7 +132,7 @@ pub fn k2_handshake_fixed() {
     let p = &v[..];
     vk::assume(n < 2 || (p[1] & 0x02) != 0); // CLIENT_PROTOCOL_41 (0x0200)
     vk::assume(n < 2 || (p[1] & 0x08) != 0); // CLIENT_SSL (0x0800): SSL request, no user name yet
-    let r = client_handshake(p, false);
+    let r = noerr(client_handshake(p, false));
     if n >= 32 {
         vk_cover!(n == 32, "cover: bare SSL request packet");
         match r {
@@ -188,7 +188,7 @@ pub fn k2_handshake_user() {
     // the user name is scanned unless this is the plaintext SSL request
     vk::assume(!(proto41 && !after_tls && (p[1] & 0x08) != 0));
     let off = if proto41 { 32 } else { 5 };
-    let r = client_handshake(p, after_tls);
+    let r = noerr(client_handshake(p, after_tls));
     if n < off {
         vk_assert!(r.is_err(), "[C11.handshake.fixed] truncated handshake accepted");
         return;
